@@ -33,6 +33,10 @@ type Q struct {
 	Args    []*Q    // callf: actual parameters
 }
 
+// value parameters (def f($x): ...) are modelled in VM.v / Den.v but not yet covered by Compile.comp (the theorem);
+// they are generated only when this switch is on
+var genPV = false
+
 // a formal parameter: a filter (def f(g): named f<N>) or a value (def f($x): named $v<N>)
 type Param struct {
 	Val bool
@@ -541,7 +545,7 @@ func randQ(r *Rng, budget int, s scope) *Q {
 		bs := s.body()
 		if r.Chance(1, 2) {
 			for i := 1 + r.Intn(2); i > 0; i-- {
-				if r.Chance(1, 3) {
+				if genPV && r.Chance(1, 3) {
 					p := Param{true, 5 + len(ps)}
 					ps = append(ps, p)
 					bs = bs.withVar(p.N)
@@ -697,7 +701,13 @@ func recProg(r *Rng) *Q {
 			rec2 := &Q{K: "callf", N: 0, Args: []*Q{&Q{K: "comma", A: g, B: v}}}
 			body = &Q{K: "bind", A: id(), N: 0, B: &Q{K: "if", A: bin("lt", v, c(k)), B: pipe(bin("add", v, c(1)), rec2), C: g}}
 			arg = c(0)
-		default: // a value parameter
+		default: // a value parameter (only when the model's comp covers them), else a closure over a closure
+			if !genPV {
+				rec4 := &Q{K: "callf", N: 0, Args: []*Q{bin("add", g, c(1))}}
+				body = &Q{K: "if", A: guard, B: pipe(bin("add", id(), c(1)), rec4), C: &Q{K: "arr", A: g}}
+				arg = &Q{K: "comma", A: c(0), B: id()}
+				break
+			}
 			ps = []Param{{true, 5}}
 			v := &Q{K: "var", N: 5}
 			rec3 := &Q{K: "callf", N: 0, Args: []*Q{bin("add", v, c(1))}}
